@@ -112,6 +112,25 @@ Theorem C07_http_proxy_wrong_or_missing_credentials_reach_no_backend : forall c 
 Proof. exact ha_http_proxy_wrong_credentials. Qed.
 Print Assumptions C07_http_proxy_wrong_or_missing_credentials_reach_no_backend.
 
+(* both entry points of the plugin (Handle's sniffed CONNECT, the http.Server's ServeHTTP), every request of a connection *)
+Theorem C07_http_proxy_every_entry_forward_implies_credentials : forall e c rq,
+  ha_http_proxy_via e c rq = HpProxy -> ha_cfg_creds c = None \/ ha_http_proxy_presented rq = ha_cfg_creds c.
+Proof. exact ha_http_proxy_via_forward_implies_credentials. Qed.
+Print Assumptions C07_http_proxy_every_entry_forward_implies_credentials.
+
+Theorem C07_http_proxy_every_entry_wrong_credentials_reach_no_backend : forall e c rq x,
+  ha_cfg_creds c = Some x -> ha_http_proxy_presented rq <> Some x ->
+  exists close, ha_http_proxy_via e c rq = HpChallenge close.
+Proof. exact ha_http_proxy_via_wrong_credentials. Qed.
+Print Assumptions C07_http_proxy_every_entry_wrong_credentials_reach_no_backend.
+
+Theorem C07_http_proxy_conn_every_request_checked : forall sniff c rqs i,
+  nth_error (ha_http_proxy_conn sniff c rqs) i = Some HpProxy ->
+  exists rq, nth_error rqs i = Some rq /\
+             (ha_cfg_creds c = None \/ ha_http_proxy_presented rq = ha_cfg_creds c).
+Proof. exact ha_http_proxy_conn_every_request. Qed.
+Print Assumptions C07_http_proxy_conn_every_request_checked.
+
 (* ---- socks5 plugin ---------------------------------------------------------------------------------------------- *)
 Theorem C07_socks5_forward_implies_credentials : forall c rq m,
   ha_socks5 c rq = S5Granted m ->
@@ -140,8 +159,8 @@ Print Assumptions C07_static_file_wrong_or_missing_credentials_reach_no_backend.
 
 (* ---- dashboard and admin API: reflective over today's route registrations (translator unit t7) ------------------ *)
 (* every route registered in server/dashboard_api.go, client/admin_api.go and pkg/util/http/server.go hangs off a
-   router that uses the auth middleware, except the declared public ones ([ha_declared_public]: /healthz, and the
-   /debug/pprof/ family that exists only under webServer.pprofEnable); no registration the translator could not read *)
+   router that uses the auth middleware, except the declared public one ([ha_declared_public]: exactly /healthz);
+   this includes the /debug/pprof/ family of webServer.pprofEnable; no registration the translator could not read *)
 Theorem C07_api_routes_guarded :
   (forall s, In s (dashboard_routes ++ admin_routes ++ webserver_routes) -> exists r, s = WRoute r) /\
   (forall r, In r (ha_routes_of (dashboard_routes ++ admin_routes ++ webserver_routes)) ->
